@@ -236,3 +236,62 @@ Proof.
   - split; [exact H4|]. exists d'. split; [exact E|]. split; [exact K|]. split; [exact P|]. split; [exact B|]. split; [|exact M].
     assert (E' : renumber_objects_with 1 ex_swap = Done d') by exact E. clear - E'. vm_compute in E'. inversion E'. reflexivity.
 Qed.
+
+(* ---------- the statement used by Props/C10.v, written out ---------- *)
+Theorem renumber_iso :
+  forall start d,
+    sorted_keys (d_objects (base d)) -> fits start d -> KnownClass start d = false ->
+    exists d' rho,
+      renumber_objects_with start d = Done d' /\
+      inj_on (used d) rho /\
+      (forall x, used d' x <-> exists id, used d id /\ x = rho id) /\
+      d_trailer (base d') = rename_dict rho (d_trailer (base d)) /\
+      (forall id, reach (d_trailer (base d)) (d_objects (base d)) id ->
+                  lookup (d_objects (base d')) (rho id) = option_map (rename rho) (lookup (d_objects (base d)) id)) /\
+      (forall id, used d id -> ~ reach (d_trailer (base d)) (d_objects (base d)) id ->
+                  lookup (d_objects (base d')) (rho id) = lookup (d_objects (base d)) id) /\
+      bm_table d' = renumber_bookmarks_with rho (bm_table d) /\
+      bookmarks d' = bookmarks d /\ max_bookmark_id d' = max_bookmark_id d /\
+      (forall x, reach (d_trailer (base d')) (d_objects (base d')) x <->
+                 exists id, reach (d_trailer (base d)) (d_objects (base d)) id /\ x = rho id) /\
+      (forall x, has_obj (d_objects (base d')) x <-> exists id, has_obj (d_objects (base d)) id /\ x = rho id) /\
+      (forall id o, reach (d_trailer (base d)) (d_objects (base d)) id -> lookup (d_objects (base d)) id = Some o ->
+                    lookup (d_objects (base d')) (rho id) = Some (rename rho o)) /\
+      (forall id, used d id -> lookup (d_objects (base d)) id = None -> lookup (d_objects (base d')) (rho id) = None) /\
+      page_iter (base d') = map rho (page_iter (base d)) /\
+      d_version (base d') = d_version (base d) /\ d_binary_mark (base d') = d_binary_mark (base d).
+Proof.
+  intros start d Sm F K. destruct (renumber_main start d Sm F K) as [d' [rho [E Post]]].
+  pose proof (deref_same start d d' rho Post) as C1. pose proof (dangling_stays_dangling start d d' rho Post) as C2.
+  destruct Post as [P1 [P2 [P3 [P4 [P5 [P6 [P7 [P8 [P9 [P10 [P11 [_ [_ [_ [_ [P16 P17]]]]]]]]]]]]]]]].
+  exists d', rho. repeat (split; [assumption|]). assumption.
+Qed.
+
+Theorem renumber_dense :
+  forall start d,
+    sorted_keys (d_objects (base d)) -> fits start d -> KnownClass start d = false ->
+    exists d',
+      renumber_objects_with start d = Done d' /\
+      length (d_objects (base d')) = length (d_objects (base d)) /\
+      map fst (map fst (d_objects (base d'))) = nums_from start (length (d_objects (base d))) /\
+      map snd (map fst (d_objects (base d'))) = map snd (map fst (d_objects (base d))) /\
+      sorted_keys (d_objects (base d')) /\
+      (d_objects (base d) <> [] -> d_max_id (base d') = last (map fst (map fst (d_objects (base d')))) 0%N) /\
+      (d_objects (base d) <> [] -> d_max_id (base d') = (start + N.of_nat (length (d_objects (base d))) - 1)%N) /\
+      (d_objects (base d) = [] -> d_max_id (base d') = if (start =? 0)%N then 0%N else (start - 1)%N).
+Proof.
+  intros start d Sm F K. destruct (renumber_main start d Sm F K) as [d' [rho [E Post]]].
+  destruct (numbers_consecutive start d d' rho Post) as [N1 N2]. pose proof (max_id_is_last start d d' rho Post) as N3.
+  destruct Post as [_ [_ [_ [_ [_ [_ [_ [_ [_ [_ [_ [_ [G [Mx [S _]]]]]]]]]]]]]]].
+  exists d'. split; [exact E|]. split; [exact N2|]. split; [exact N1|]. split; [exact G|]. split; [exact S|].
+  split; [exact N3|]. unfold dense_max, doc_m in Mx. split.
+  - intro Hne. rewrite Mx. destruct (d_objects (base d)); [congruence | reflexivity].
+  - intro He. rewrite Mx, He. reflexivity.
+Qed.
+
+(* renumber_objects() is renumber_objects_with(1); a document with fewer than 2^32 objects fits *)
+Lemma renumber_objects_is_with_1 d : renumber_objects d = renumber_objects_with 1 d.
+Proof. reflexivity. Qed.
+
+Lemma fits_1 d : fits 1 d <-> (N.of_nat (length (d_objects (base d))) <= 4294967295)%N.
+Proof. unfold fits. lia. Qed.
